@@ -444,10 +444,7 @@ impl<T: Qcow2IoOps> Qcow2Dev<T> {
         if mapping.plain_offset(0).is_none() {
             match Self::zero_preallocation(&mapping) {
                 Some(host_off) => {
-                    // its stale content has to be zeroed before the first write,
-                    // same with any new cluster
-                    self.mark_new_cluster(host_off >> self.info.cluster_bits())
-                        .await;
+                    self.zero_preallocated_cluster(host_off).await?;
                     let _ = l2_table.map_cluster(split.l2_slice_index(&self.info), host_off);
                 }
                 None => {
@@ -469,6 +466,17 @@ impl<T: Qcow2IoOps> Qcow2Dev<T> {
         } else {
             None
         }
+    }
+
+    /// The stale content of one preallocated cluster has to be gone for good
+    /// before it is mapped as data cluster: no refcount changes, so nothing else
+    /// orders the zeroing before the flush of the new mapping
+    async fn zero_preallocated_cluster(&self, host_off: u64) -> Qcow2Result<()> {
+        let len = self.info.cluster_size();
+
+        self.call_fallocate(host_off, len, Qcow2OpsFlags::FALLOCATE_ZERO_RANGE)
+            .await?;
+        self.call_fsync(host_off, len, 0).await
     }
 
     /// don't pre-populate mapping for backing & compressed cow, which
@@ -584,8 +592,12 @@ impl<T: Qcow2IoOps> Qcow2Dev<T> {
                     }
                 };
 
-                // this is one new cluster
-                self.mark_new_cluster(l2_off >> info.cluster_bits()).await;
+                if Self::zero_preallocation(&mapping).is_some() {
+                    self.zero_preallocated_cluster(l2_off).await?;
+                } else {
+                    // this is one new cluster
+                    self.mark_new_cluster(l2_off >> info.cluster_bits()).await;
+                }
                 let _ = l2_table.map_cluster(split.l2_slice_index(info), l2_off);
 
                 //load new entry
